@@ -394,6 +394,9 @@ func check(c Case) vk.Verdict {
 		if getFault {
 			return vk.Failf("%s: the token store failed on lookup but the request reached the handler", ctx)
 		}
+		if delFault && c.SingleUse {
+			return vk.Failf("%s: the token store failed to delete the single-use token (it stays usable) but the request reached the handler", ctx)
+		}
 		if c.Extractor != "cookie" && sentTok != cookieTok {
 			return vk.Failf("%s: an unsafe request reached the handler although the presented token %q does not match the CSRF cookie %q", ctx, sentTok, cookieTok)
 		}
